@@ -17,6 +17,7 @@ sensitivity: s/while sector_id < RESERVED_SECTORS {/while sector_id < 1 {/ DIFAT
 sensitivity: s/if len > 0 {/if len > 1 {/                                  1-byte streams not truncated KILLED (replay + trace)
 sensitivity: s/h.mini_fat_len \* h.sector_size,/h.mini_fat_len * 64,/     mini FAT cut short          KILLED (replay + trace)
 sensitivity: re-inserting `|| (h.version != 3 && dirs[0].start == ENDOFCHAIN)` (reverts fix 4f54d44)  KILLED (replay)
+sensitivity: seeded C13-2 `difat.last().copied()` for `difat.pop()` (needs >= 2 DIFAT sectors)          KILLED (trace + read: sparse 15.5 / 24 MB files)
 sensitivity: s/let start = id as usize \* self.size;/let start = (id as usize + 1) * self.size;/      KILLED (abort)
 """
 import json
@@ -65,7 +66,7 @@ def run(ctx):
     ctx.extra["layouts_enumerated"] = layouts
     # leg 2
     stats = []
-    chunks = ctx.pick([(60, 0, 0, 2)], [(300, 0, 0, 2), (300, 0, 0, 0), (40, 6, 0, 2), (4, 0, 2, 0)])
+    chunks = ctx.pick([(60, 0, 0, 3)], [(300, 0, 0, 3), (300, 0, 0, 0), (40, 6, 0, 6), (4, 0, 2, 0)])
     for k, (n, big, huge, sparse) in enumerate(chunks):
         trace = "%s/cfb_trace_%d.ndjson" % (ctx.work, k)
         rep = "%s/cfb_drive_%d.json" % (ctx.work, k)
